@@ -2,7 +2,7 @@
 import itertools
 import logging
 
-from copy import deepcopy
+from copy import copy, deepcopy
 from functools import reduce
 from itertools import combinations, product
 
@@ -1319,6 +1319,8 @@ def create_extra_term(term, encoding, data, env):
     component_names = [component.name for component in term.components]
     components = [term.get_component(name) for name in component_names if name in encoding.keys()]
     components += [component for component in term.components if component.kind == "numeric"]
-    extra_term = Term(*deepcopy(components))
+    # Shallow copies: the components already hold their evaluation environment (modules cannot
+    # be deep-copied) and only need their own type / data attributes.
+    extra_term = Term(*[copy(component) for component in components])
     extra_term.set_type(data, env)
     return extra_term
